@@ -324,7 +324,11 @@ func Main(t *testing.T, h *Harness) {
 	}
 
 	flag.Set("rapid.nofailfile", "true")
-	flag.Set("rapid.shrinktime", "45s")
+	if tier == "thorough" {
+		flag.Set("rapid.shrinktime", "60s")
+	} else {
+		flag.Set("rapid.shrinktime", "15s")
+	}
 	batch := 0
 	per := 20
 	for {
@@ -442,4 +446,34 @@ func sanitize(s string) string {
 		}
 	}
 	return b.String()
+}
+
+// Panics turns panics that escaped simulated tasks into a verdict: a panic
+// raised from harness code is a defect of the harness (inconclusive, exit 2),
+// any other panic (code under test, or a shim objecting to how the code under
+// test used it) is a violation of class "panic".
+func Panics(out *Outcome, panics []string) {
+	for _, p := range panics {
+		lines := strings.Split(p, "\n")
+		first := ""
+		for i, l := range lines {
+			if strings.HasPrefix(l, "panic(") {
+				// frames are "func(args)" then "\tfile:line"; the next function line follows
+				for j := i + 2; j < len(lines); j += 2 {
+					if !strings.HasPrefix(lines[j], "runtime.") {
+						first = lines[j]
+						break
+					}
+				}
+				break
+			}
+		}
+		if strings.HasPrefix(first, "verif/harness/") {
+			if out.Inconclusive == "" {
+				out.Inconclusive = "harness panic: " + p
+			}
+			continue
+		}
+		out.Violate("panic", "%s", p)
+	}
 }
